@@ -95,48 +95,6 @@ def out (r : Res V) : String :=
   | .ok v σ => "t:[" ++ ",".intercalate σ.trace ++ "];k:normal:" ++ tokV σ v
   | .throw v σ => "t:[" ++ ",".intercalate σ.trace ++ "];k:throw:" ++ tokV σ v
 
-/-- does the term contain a node with one of these heads anywhere? -/
-partial def hasNode (heads : List String) : SX → Bool
-  | .node nm as => heads.contains nm || as.any (hasNode heads)
-
-/-- an assignment to the identifier `x` somewhere in these terms -/
-partial def assignsVar (x : String) : SX → Bool
-  | .node "as" [.node y [], e] => x = y || assignsVar x e
-  | .node _ as => as.any (assignsVar x)
-
-/-- an assignment `_.p = …` to the property name `p` somewhere in these terms -/
-partial def assignsProp (p : String) : SX → Bool
-  | .node "st" [o, .node q [], e] => p = q || assignsProp p o || assignsProp p e
-  | .node _ as => as.any (assignsProp p)
-
-/-- the names the program declares or assigns somewhere: V(…) and PS(…) lists, d(name, …), as(name, …),
-    catch parameters, for-in variables -/
-partial def boundNames : SX → List String
-  | .node nm as =>
-    (match nm, as with
-     | "V", xs => names xs
-     | "PS", xs => names xs
-     | "d", (.node x []) :: _ => [x]
-     | "as", (.node x []) :: _ => [x]
-     | "VS", (.node x []) :: _ => [x]
-     | "FI", _ :: (.node x []) :: _ => [x]
-     | "Y", [_, _, .node x [], _, _, _] => [x]
-     | _, _ => []) ++ (as.map boundNames).foldl (· ++ ·) []
-
-/-- Dev region `call_callee_late` (decidable on the request): a call `x(…)`, `new x(…)` or `o.p(…)` one of
-    whose ARGUMENTS assigns to the callee (`x = …` resp. `_.p = …`), or a call `x(…)` with arguments whose
-    callee name is bound nowhere in the program (an unresolvable reference).  otto reads the callee's
-    value after the arguments have been evaluated (cmpl_evaluate_expression.go:231 / :294), ES5 §11.2.3
-    step 2 / §11.2.2 step 2 before: the old function is called, and the ReferenceError comes before any
-    effect of the arguments. -/
-partial def devCalleeLate (bound : List String) : SX → Bool
-  | .node nm as =>
-    (match nm, as with
-     | "c", [.node "v" [.node x []], .node "A" args] => args.any (assignsVar x) || (!args.isEmpty && !bound.contains x)
-     | "nw", [.node "v" [.node x []], .node "A" args] => args.any (assignsVar x) || (!args.isEmpty && !bound.contains x)
-     | "mc", [_, .node p [], .node "A" args] => args.any (assignsProp p)
-     | _, _ => false) || as.any (devCalleeLate bound)
-
 def handle (ws : List String) : Option String :=
   match ws with
   | ["fn", fuel, prog] =>
@@ -146,13 +104,10 @@ def handle (ws : List String) : Option String :=
       | some d, some s =>
         let spec := out (runProgram n (names vs) d s)
         let model := FnM.out (FnM.runProgram n (names vs) d s)
-        let p : SX := .node "FP" [.node "D" ds, .node "S" ss]
-        let devs := (if devCalleeLate (boundNames p ++ names vs) p then ["call_callee_late"] else [])
-        -- outside the Dev regions the transcription must compute what ES5 says: the harness counts
-        -- impl = spec ≠ model only as "model stale", so such a disagreement is turned into a spec token
-        -- no implementation can produce, i.e. into a violation
-        if devs.isEmpty && model != spec then some (model ++ " MODEL-NE-SPEC[" ++ spec ++ "] -")
-        else some (model ++ " " ++ spec ++ " " ++ (if devs.isEmpty then "-" else ",".intercalate devs))
+        -- the transcription must compute what ES5 says: the harness counts impl = spec ≠ model only as
+        -- "model stale", so such a disagreement is turned into a spec token no implementation can produce
+        if model != spec then some (model ++ " MODEL-NE-SPEC[" ++ spec ++ "] -")
+        else some (model ++ " " ++ spec ++ " -")
       | _, _ => some "bad-op"
     | _, _ => some "bad-op"
   | _ => none
